@@ -31,6 +31,7 @@ minute / second and every day description:
 namespace RTV.ZhTP
 open RTV.Cal RTV.DateUtils RTV.WF RTV.Periods RTV.DtPeriod
 set_option linter.unusedVariables false
+set_option linter.unusedSimpArgs false
 
 /-! ## the am/pm rules, exactly -/
 
@@ -459,5 +460,211 @@ example : commonDurationHMS ⟨⟨2020, 12, 31⟩, 86399⟩ (some .M) (Py.ofStri
     .ok (Py.ofString "(2020-12-31T23:59:59,2021-01-01T00:19:59,PT20M)") ⟨⟨2020, 12, 31⟩, 86399⟩ ⟨⟨2021, 1, 1⟩, 1199⟩
       ⟨⟨2020, 12, 31⟩, 86399⟩ ⟨⟨2021, 1, 1⟩, 1199⟩ := by decide +kernel
 example : commonDurationHMS ⟨⟨9999, 12, 31⟩, 86399⟩ (some .S) (Py.ofString "1") 1 false true = .raises := by decide +kernel
+
+/-! ## sets (`ChineseSetParser`) -/
+
+def sP1D : Str := [80, 49, 68]
+def sP1W : Str := [80, 49, 87]
+def sP1M : Str := [80, 49, 77]
+def sP1Y : Str := [80, 49, 89]
+
+/-- `get_matched_unit_timex`: the only TIMEXes it writes are `P1D`, `P1W`, `P1M`, `P1Y` — for every unit text -/
+theorem zh_set_unit_forms (u t : Str) (h : matchedUnitTimex u = some t) : t = sP1D ∨ t = sP1W ∨ t = sP1M ∨ t = sP1Y := by
+  unfold matchedUnitTimex at h
+  repeat' split at h
+  all_goals first
+    | (simp only [Option.some.injEq] at h; subst h; decide)
+    | simp at h
+
+/-- the words: 每天 / 每日 → P1D, 每周 / 每星期 → P1W, 每月 → P1M, 每年 → P1Y; 小时 / 分钟 / 秒 (keys of `unit_map`, admitted by
+`SetEachUnitRegex`) have no TIMEX here: 每小时 falls through to the later attempts and ends without a resolution -/
+theorem zh_set_unit_words :
+    eachUnit (some [22825]) true = some sP1D ∧ eachUnit (some [26085]) true = some sP1D ∧
+    eachUnit (some [21608]) true = some sP1W ∧ eachUnit (some [26143, 26399]) true = some sP1W ∧
+    eachUnit (some [26376]) true = some sP1M ∧ eachUnit (some [24180]) true = some sP1Y ∧
+    eachUnit (some [23567, 26102]) true = none ∧ eachUnit (some [20998, 38047]) true = none ∧ eachUnit (some [31186]) true = none ∧
+    eachUnit none true = none ∧ eachUnit (some [22825]) false = none := by decide
+
+/-- `ChineseSetParser.parse`: the result is the FIRST attempt that succeeds, in the order each-unit, each-duration, time
+every day, each date-time, each date; the value is `'Set: '` followed by the TIMEX; no attempt succeeds → no value. -/
+theorem zh_set_first_success (a b c d e : Option Str) :
+    (∀ t v, setParse a b c d e = some (t, v) → v = sSetColon ++ t ∧
+      (a = some t ∨ (a = none ∧ b = some t) ∨ (a = none ∧ b = none ∧ c = some t) ∨ (a = none ∧ b = none ∧ c = none ∧ d = some t) ∨
+       (a = none ∧ b = none ∧ c = none ∧ d = none ∧ e = some t))) ∧
+    (setParse a b c d e = none ↔ a = none ∧ b = none ∧ c = none ∧ d = none ∧ e = none) := by
+  unfold setParse
+  cases a <;> cases b <;> cases c <;> cases d <;> cases e <;> simp <;> (intro t v h1 h2; subst h1 h2; simp)
+
+/-! ## holidays (`ChineseHolidayParser`) -/
+
+/-- **every fixed-date holiday function, for every year 1..9999**: a key of `__fixed_holiday_dictionary` with function
+`datetime(year, mo, d)` returns exactly that month and day of that year (the month / day pairs of the table exist in
+every year — checked on the table by evaluation, the statement over the years is by theorem). -/
+theorem zh_fixed_holidays_every_year :
+    ∀ e ∈ holidayTable, ∀ mo d, e.2 = .fixed mo d → ∀ y : Nat, 1 ≤ y → y ≤ 9999 → e.2.eval (y : Int) = some ⟨y, mo, d⟩ := by
+  have tbl : holidayTable.all (fun e => match e.2 with | .fixed mo d => decide (everyYear mo d) | _ => true) = true := by decide
+  intro e he mo d hf y h1 h2
+  have ev : everyYear mo d := by
+    have := List.all_eq_true.1 tbl e he
+    rw [hf] at this
+    simpa using this
+  have v := valid_everyYear y mo d ev h1 h2
+  rw [hf]
+  unfold ZFn.eval
+  rw [if_pos (by omega)]
+  simp [Holiday.mkDate, v]
+
+/-- the table, entry by entry: 元旦 / 新年 / 春节 1 January (春节, a lunar holiday, is given the SOLAR 1 January), 情人节 14 February,
+女生节 7 March, 妇女节 8 March, 植树节 12 March, 愚人节 1 April, 清明 4 April, 劳动节 / 五一 1 May, 青年节 4 May, 端午 5 May, 儿童节 1 June,
+建军节 1 August, 中秋 15 August, 重阳节 9 September, 教师节 10 September, 国庆节 1 October, 万圣节 31 October, 光棍节 / 双十一 11 November,
+平安夜 24 December, 圣诞节 25 December, 元宵节 15 January; 除夕 is the day before 1 January. -/
+theorem zh_holiday_table_entries :
+    Holiday.dictGet holidayTable [22307, 35806, 33410] = some (.fixed 12 25) ∧ Holiday.dictGet holidayTable [22269, 24198, 33410] = some (.fixed 10 1) ∧
+    Holiday.dictGet holidayTable [20803, 26086] = some (.fixed 1 1) ∧ Holiday.dictGet holidayTable [26149, 33410] = some (.fixed 1 1) ∧
+    Holiday.dictGet holidayTable [21171, 21160, 33410] = some (.fixed 5 1) ∧ Holiday.dictGet holidayTable [25945, 24072, 33410] = some (.fixed 9 10) ∧
+    Holiday.dictGet holidayTable [20013, 31179, 33410] = some (.fixed 8 15) ∧ Holiday.dictGet holidayTable [38500, 22805] = some .eve ∧
+    Holiday.dictGet holidayTable [27597, 20146, 33410] = some (.var (.nth 5 5 1 7)) ∧
+    Holiday.dictGet holidayTable [29238, 20146, 33410] = some (.var (.nth 6 6 2 7)) ∧
+    Holiday.dictGet holidayTable [24863, 24681, 33410] = some (.var (.nth 11 11 3 4)) ∧
+    Holiday.dictGet holidayTable [33098, 20843, 33410] = none := by decide
+
+/-- **母亲节 / 父亲节 / 感恩节, for every year 1..9999** (by theorem — `Lemmas/Holiday.getDay_nth` — not by enumeration): the second
+Sunday of May (day 8..14), the third Sunday of June (day 15..21), the fourth Thursday of November (day 22..28). -/
+theorem zh_variable_holidays_every_year (y : Nat) (h1 : 1 ≤ y) (h2 : y ≤ 9999) :
+    (∃ d, (ZFn.var (.nth 5 5 1 7)).eval (y : Int) = some ⟨y, 5, d⟩ ∧ (Date.mk y 5 d).weekday = 6 ∧ 8 ≤ d ∧ d ≤ 14) ∧
+    (∃ d, (ZFn.var (.nth 6 6 2 7)).eval (y : Int) = some ⟨y, 6, d⟩ ∧ (Date.mk y 6 d).weekday = 6 ∧ 15 ≤ d ∧ d ≤ 21) ∧
+    (∃ d, (ZFn.var (.nth 11 11 3 4)).eval (y : Int) = some ⟨y, 11, d⟩ ∧ (Date.mk y 11 d).weekday = 3 ∧ 22 ≤ d ∧ d ≤ 28) := by
+  have ev : ∀ g : Holiday.Fn, (ZFn.var g).eval (y : Int) = g.eval y := by
+    intro g; unfold ZFn.eval; rw [if_pos (by omega)]; simp
+  refine ⟨?_, ?_, ?_⟩
+  · obtain ⟨d, e, w, lo, hi⟩ := Holiday.holiday_nth_weekday 5 1 7 y (by omega) (by omega) (by omega) (by omega) (by omega) h1 h2
+    exact ⟨d, by rw [ev]; exact e, w, by omega, by omega⟩
+  · obtain ⟨d, e, w, lo, hi⟩ := Holiday.holiday_nth_weekday 6 2 7 y (by omega) (by omega) (by omega) (by omega) (by omega) h1 h2
+    exact ⟨d, by rw [ev]; exact e, w, by omega, by omega⟩
+  · obtain ⟨d, e, w, lo, hi⟩ := Holiday.holiday_nth_weekday 11 3 4 y (by omega) (by omega) (by omega) (by omega) (by omega) h1 h2
+    exact ⟨d, by rw [ev]; exact e, w, by omega, by omega⟩
+
+/-- `new_year_eve(year)` is 31 December of the year BEFORE (`datetime(year, 1, 1) − 1 day`), for every year 2..9999; for year 1
+it raises. With a year in the text only its month and day are used (`datetime(year, 12, 31)`). -/
+theorem zh_new_year_eve (y : Nat) (h1 : 2 ≤ y) (h2 : y ≤ 9999) :
+    ZFn.eve.eval (y : Int) = some ⟨y - 1, 12, 31⟩ ∧ ZFn.eve.eval 1 = none := by
+  refine ⟨?_, by decide⟩
+  unfold ZFn.eval
+  rw [if_pos (by omega)]
+  simp only [Int.toNat_natCast]
+  have v1 := valid_jan1 y (by omega) h2
+  have v0 := valid_dec31 (y - 1) (by omega) (by omega)
+  have s := dec31_succ (y - 1) (by omega)
+  have e : y - 1 + 1 = y := by omega
+  rw [e] at s
+  have rr := ord_range _ v0
+  unfold Date.addDays addDaysOrd
+  simp only
+  rw [if_pos (by omega)]
+  have : (((⟨y, 1, 1⟩ : Date).ord : Int) + -1).toNat = (⟨y - 1, 12, 31⟩ : Date).ord := by omega
+  rw [this]
+  simp [ofOrd_ord _ v0]
+
+/-- **a holiday with a year group, for every key and every year group**: when the function table has the key and the
+computed date exists, the result is definite — TIMEX `YYYY` + the holiday's tail, future = past = that month / day of
+THE YEAR THE CODE READ (`holidayYear`), whatever the reference. -/
+theorem zh_holiday_with_year_definite (R : DateTime) (key : Str) (yi : YearIn) (hy : yi ≠ .absent) (r : Holiday.Res)
+    (h : zhMatch2date R key yi = .ok r) :
+    r.future = r.past ∧ (r.future.y : Int) = (holidayYear R yi).1 ∧ r.future.valid = true ∧
+    r.timex.take 4 = (fmt4 (holidayYear R yi).1).take 4 := by
+  have hy' : (holidayYear R yi).2 = true := by
+    cases yi <;> simp [holidayYear] at hy ⊢
+  unfold zhMatch2date at h
+  split at h
+  · simp at h
+  · generalize hyr : holidayYear R yi = yr at h hy'
+    obtain ⟨year, hasYear⟩ := yr
+    simp only at hy' h
+    subst hy'
+    cases hg : Holiday.dictGet holidayTable key with
+    | none => simp [hg] at h
+    | some f =>
+      simp only [hg] at h
+      split at h
+      · next date tail0 hd ht =>
+        simp only [if_true] at h
+        cases hm : Holiday.mkDate year.toNat date.m date.d with
+        | none => simp [hm] at h
+        | some x =>
+          simp only [hm, Holiday.Out.ok.injEq] at h
+          subst h
+          have mv := Holiday.mkDate_some hm
+          have yr1 : 1 ≤ year ∧ year ≤ 9999 := by
+            unfold ZFn.eval at hd
+            by_cases c : 1 ≤ year ∧ year ≤ 9999
+            · exact c
+            · rw [if_neg c] at hd; simp at hd
+          refine ⟨rfl, by simp only; rw [mv.1]; simp only; omega, mv.2, ?_⟩
+          simp only
+          have l4 : (fmt4 year).length = 4 := by
+            unfold fmt4; rw [if_pos (by omega), if_pos (by omega)]; simp [pad4]
+          rw [List.take_append_of_le_length (by omega)]
+      · simp at h
+
+/-- **finding `zh-holiday-year-truncated`**: the last character of the `year` group is always cut off
+(`year_num[0:len(year_num) - 1]` — the cut was written for a group that ends in 年; these groups do not): every four-digit
+year `n` is read as `n / 10`. Witness: 2019年圣诞节 → `0201-12-25`; 19年元旦 → year 1 → 2001; 98年元旦 → year 9 → 2009. -/
+theorem zh_holiday_year_truncated_witness :
+    (∀ R n, 1000 ≤ n → n ≤ 9999 → (holidayYear R (.digits n)).1 = ((n / 10 : Nat) : Int)) ∧
+    zhMatch2date ⟨⟨2020, 1, 31⟩, 52200⟩ [22307, 35806, 33410] (.digits 2019) =
+      .ok ⟨Py.ofString "0201-12-25", ⟨201, 12, 25⟩, ⟨201, 12, 25⟩⟩ ∧
+    zhMatch2date ⟨⟨2020, 1, 31⟩, 52200⟩ [20803, 26086] (.digits 19) = .ok ⟨Py.ofString "2001-01-01", ⟨2001, 1, 1⟩, ⟨2001, 1, 1⟩⟩ ∧
+    zhMatch2date ⟨⟨2020, 1, 31⟩, 52200⟩ [20803, 26086] (.digits 98) = .ok ⟨Py.ofString "2009-01-01", ⟨2009, 1, 1⟩, ⟨2009, 1, 1⟩⟩ := by
+  refine ⟨?_, by decide +kernel, by decide +kernel, by decide +kernel⟩
+  intro R n h1 h2
+  unfold holidayYear ZhDT.adjust9020
+  simp only
+  rw [if_neg (by omega), if_neg (by omega), if_neg (by omega)]
+
+/-- **finding `zh-holiday-cjk-year-lost`**: `__convert_year(…, is_chinese=True)` returns its initial `-1` whenever the
+whole-number reading is below 10 — which is always the case for a year spelled digit by digit (二零一九 has no whole-number
+reading) — and `-1` is then pivoted to 1999. Every such year resolves to 1999. Witness: 二零一九年国庆节 → `1999-10-01`. -/
+theorem zh_holiday_cjk_year_witness :
+    (∀ R (whole : Int), whole < 10 → (holidayYear R (.cjk whole)).1 = 1999) ∧
+    zhMatch2date ⟨⟨2020, 1, 31⟩, 52200⟩ [22269, 24198, 33410] (.cjk 0) =
+      .ok ⟨Py.ofString "1999-10-01", ⟨1999, 10, 1⟩, ⟨1999, 10, 1⟩⟩ := by
+  refine ⟨?_, by decide +kernel⟩
+  intro R whole h
+  unfold holidayYear ZhDT.adjust9020
+  simp only
+  rw [if_pos h]
+  decide
+
+/-- the SPECIFICATION of the repaired reading (`holidayYearFixed`, findings/zhtp/zh-holiday-year.diff): a four-digit year is
+itself, a two-digit year goes through the 90 / 20 pivot, a Chinese year is its digit-by-digit value; relative and absent
+years are unchanged. -/
+theorem zh_holiday_year_fixed_spec (R : DateTime) :
+    (∀ n, 100 ≤ n → (holidayYearFixed R (.digits n) 0).1 = n) ∧
+    (∀ n, 90 ≤ n → n < 100 → (holidayYearFixed R (.digits n) 0).1 = 1900 + n) ∧
+    (∀ n, 1 ≤ n → n < 20 → (holidayYearFixed R (.digits n) 0).1 = 2000 + n) ∧
+    (∀ w c : Int, 100 ≤ c → (holidayYearFixed R (.cjk w) c).1 = c) ∧
+    (∀ s c, holidayYearFixed R (.rel s) c = holidayYear R (.rel s)) ∧ (∀ c, holidayYearFixed R .absent c = holidayYear R .absent) := by
+  have inner : ∀ n : Nat, 1 ≤ n → (if n = 0 then (-1 : Int) else (n : Int)) = (n : Int) := by
+    intro n h; rw [if_neg (by omega)]
+  refine ⟨?_, ?_, ?_, ?_, fun _ _ => rfl, fun _ => rfl⟩
+  · intro n h; unfold holidayYearFixed ZhDT.adjust9020; simp only
+    rw [inner n (by omega), if_neg (by omega), if_neg (by omega)]
+  · intro n h1 h2; unfold holidayYearFixed ZhDT.adjust9020; simp only
+    rw [inner n (by omega), if_pos (by omega)]; omega
+  · intro n h1 h2; unfold holidayYearFixed ZhDT.adjust9020; simp only
+    rw [inner n (by omega), if_neg (by omega), if_pos (by omega)]; omega
+  · intro w c h; unfold holidayYearFixed ZhDT.adjust9020; simp only
+    rw [if_neg (by omega), if_neg (by omega), if_neg (by omega)]
+
+/-- a relative year (明年 / 去年 / 今年) is read right: 明年春节 asked in 2020 is 2021-01-01; without a year the future / past
+candidates are the next / latest occurrence (除夕 asked on 2020-01-31: 2020-12-31 / 2019-12-31; 母亲节: 2020-05-10 / 2019-05-12) -/
+theorem zh_holiday_examples :
+    zhMatch2date ⟨⟨2020, 1, 31⟩, 52200⟩ [26149, 33410] (.rel 1) = .ok ⟨Py.ofString "2021-01-01", ⟨2021, 1, 1⟩, ⟨2021, 1, 1⟩⟩ ∧
+    zhMatch2date ⟨⟨2020, 1, 31⟩, 52200⟩ [38500, 22805] .absent = .ok ⟨Py.ofString "XXXX-12-31", ⟨2020, 12, 31⟩, ⟨2019, 12, 31⟩⟩ ∧
+    zhMatch2date ⟨⟨2020, 1, 31⟩, 52200⟩ [27597, 20146, 33410] .absent =
+      .ok ⟨Py.ofString "XXXX-05-WXX-7-2", ⟨2020, 5, 10⟩, ⟨2019, 5, 12⟩⟩ ∧
+    zhMatch2date ⟨⟨2020, 1, 31⟩, 52200⟩ [33098, 20843, 33410] .absent = .noResult ∧
+    swiftYear [26126, 24180] = 1 ∧ swiftYear [21435, 24180] = -1 ∧ swiftYear [20170, 24180] = 0 ∧ swiftYear [50, 48, 49, 57] = 0 := by
+  refine ⟨?_, ?_, ?_, ?_, ?_, ?_, ?_, ?_⟩ <;> decide +kernel
 
 end RTV.ZhTP
